@@ -388,7 +388,7 @@ pub fn encode_be(m: &MsgSpec) -> Vec<u8> {
                 if *m {
                     w.locs(multi);
                 }
-                (0x0f, vec![])
+                (0x0f, vec![*m])
             }
             Spec::InfoSrc { version, vendor, prefix } => {
                 w.u32(0);
